@@ -57,6 +57,11 @@ def run(c):
         "(`x/<a>/<aaaa>`, read from the script, not from CheckCNAMEAD) and the model's checkAddr combines them; the oracle of the monitor is "
         "RFC 7672 section 2.2 as the code documents it: the host is secure iff the address RRset that is consulted — A when the host has A "
         "records, else AAAA — came with AD (a signed alias alone also counts); the AD bit of the other address answer is not evidence about it",
+        "'validly chains' is RFC 5280 path validation as crypto/x509 implements it at the time of the connection, for every certificate "
+        "on the path, the matched trust anchor included (validity period, basicConstraints, path length, name constraints, extended key "
+        "usage); the ground truth of the bad-path chains (P, Q, T, N, K, H, Y) is how they were built, self-checked per anchor against "
+        "crypto/x509; the model asks its X.509 parameter one question (C13_one_x509_verdict_decides) and refuses on a negative answer "
+        "(C13_invalid_path_refused)",
         "resolver ops: the miekg/dns client and wire format are primitives (Transport parameter of the model; the tree's is plain UDP without "
         "TCP fall-back); which configured address is a loopback address is known by construction (127.0.0.1, 127.0.0.2: yes; 0.0.0.0: no)",
     ]
@@ -92,6 +97,12 @@ def run(c):
         "signed / unsigned alias x TLSA RRsets signed / unsigned / absent / failing: every shape in disc and conn, pinned RRsets x plaintext / "
         "non-matching / matching connection under every state in check, conn and attempt, the shapes also behind the loopback / non-loopback "
         "resolvers of res / rconn. "
+        "Chains with a good leaf (right name, within its validity period, every signature right) whose PATH is not valid: an intermediate that "
+        "expired after the leaf was issued / is not valid yet / is no CA certificate / is restricted to client authentication / is "
+        "name-constrained to another domain, a root certificate that expired / has path length 0 (P, Q, N, K, H, T, Y; variants of the "
+        "intermediate and the root with the same subject and key) x every record type in verify, every usable DANE-TA form pinning the "
+        "intermediate or the root of the chain (alone, in pairs, next to unusable / non-matching records) in verify, check, conn and attempt "
+        "(client trusting no CA / the roots / the system store). "
         "Each op runs the real function and the Lean model (primitive results shipped as tables); distinct = distinct op lines",
         explanation="theorems for all record lists, chains, handshake histories and primitive behaviours; model tied to dane.go/security.go/"
         "connect.go/dnssec.go by differential runs; "
